@@ -66,6 +66,9 @@ def _merge_stubs_members(obj: Module | Class, stubs: Module | Class) -> None:
             if stub_member.is_alias:
                 continue
             obj_member = obj.get_member(member_name)
+            # A stub-only member moved here by an earlier merge of the same stubs: nothing to merge it with.
+            if obj_member is stub_member:
+                continue
             with suppress(AliasResolutionError, CyclicAliasError):
                 # An object's canonical location can differ from its equivalent stub location.
                 # Devs usually declare stubs at the public location of the corresponding object,
